@@ -21,7 +21,7 @@ ASSUMPTIONS = unitkit.UNITS_STUB_TEXT + [
 ]
 OUTSIDE = ['arrays longer than 2 elements', 'conversion INTO an expression carrying a numeric factor such as 60*s',
            'temperature and logarithmic units (C05)', 'binary64 rounding / overflow']
-BOUNDS = {'quick': {'linear triples': 'one per unit symbol, 140 sampled prefixed symbols by VERIF_SEED', 'mismatch pairs': 260},
+BOUNDS = {'quick': {'linear triples': 'one per unit symbol, 140 sampled prefixed symbols by VERIF_SEED', 'mismatch pairs': 260, 'other families': 'quantity targets k w (same, other and reciprocal dimension), conversions after a refused / reciprocal one, empty targets (None, {}, zero dimension list, Dimensions()), 5 system-of-units symbols x 6 exponents, array magnitudes, published prefix ladder'},
           'thorough': {'linear triples': 'every table unit with every admissible prefix occurs as source and as target', 'mismatch pairs': 'all ordered pairs of dimension-class representatives'}}
 EXHAUSTIVE = {'quick': False, 'thorough': True}
 PRE = "from scinumtools.units import Quantity\n"
